@@ -60,6 +60,12 @@ example : ∀ g ∈ sampleGroups, WFGroup g := by
   simp [sampleGroups] at hg
   rcases hg with rfl | rfl | rfl | rfl <;> exact ⟨_, _, rfl, by decide, by decide⟩
 
+/-- the same as a named fact, for the witnesses below -/
+theorem sampleGroups_wf : ∀ g ∈ sampleGroups, WFGroup g := by
+  intro g hg
+  simp [sampleGroups] at hg
+  rcases hg with rfl | rfl | rfl | rfl <;> exact ⟨_, _, rfl, by decide, by decide⟩
+
 example : CharChain sampleGroups.length 0 [(1, 2), (2, 3)] := by simp [CharChain, sampleGroups]
 
 /-- the ranges of `é` and `😀` (bytes 1..3 and 3..7), given out of order, with a nested duplicate -/
@@ -73,6 +79,17 @@ example : byteSpansToCharSpans sampleGroups.flatten [⟨2, 3⟩] = .error .slice
 nested under a retained one make the loop slice backwards (`source[10..3]`) -/
 example : byteSpansToCharSpans (List.replicate 10 97) [⟨0, 10⟩, ⟨2, 3⟩, ⟨3, 10⟩] = .error .sliceOOB := by
   decide
+
+/-- non-vacuity of byteToChar_exact -/
+example : byteSpansToCharSpans sampleGroups.flatten [⟨3, 7⟩, ⟨1, 3⟩, ⟨3, 7⟩] = .ok [⟨1, 2⟩, ⟨2, 3⟩] :=
+  (byteToChar_exact sampleGroups sampleGroups_wf [⟨3, 7⟩, ⟨1, 3⟩, ⟨3, 7⟩] [(1, 2), (2, 3)]
+    (by decide) (by simp [CharChain, sampleGroups])).1
+
+/-- non-vacuity of byteToChar_exact_sorted -/
+example : byteSpansToCharSpans sampleGroups.flatten [⟨0, 1⟩, ⟨1, 7⟩, ⟨7, 8⟩] =
+    .ok [⟨0, 1⟩, ⟨1, 3⟩, ⟨3, 4⟩] :=
+  byteToChar_exact_sorted sampleGroups sampleGroups_wf [(0, 1), (1, 3), (3, 4)]
+    (by simp [CharChain, sampleGroups])
 
 /-! ## (b) the mask and the `Mask` parser -/
 
@@ -102,6 +119,69 @@ example : MaskOK 14 [⟨0, 4⟩, ⟨5, 9⟩, ⟨10, 14⟩] := by
 example : mergeWhitespaceSep (fun c => c == ' ' || c == '\n')
     ['w','o','r','d',' ','w','o','r','d','\n','w','o','r','d'] 4 [⟨0, 4⟩, ⟨5, 9⟩, ⟨10, 14⟩] = .ok [⟨0, 14⟩] := by
   decide
+
+/-- non-vacuity of pushAllowed_maintains -/
+example : ∃ m', pushAllowed [⟨0, 4⟩, ⟨5, 9⟩] ⟨10, 14⟩ = .ok m' ∧ MaskOK 14 m' :=
+  pushAllowed_maintains 14 [⟨0, 4⟩, ⟨5, 9⟩] ⟨10, 14⟩
+    ⟨by intro s hs; simp at hs; rcases hs with rfl | rfl <;> simp, by simp⟩
+    (by decide) (by decide) (by intro l h; cases h; decide)
+example : pushAllowed [⟨0, 4⟩, ⟨5, 9⟩] ⟨10, 14⟩ = .ok [⟨0, 4⟩, ⟨5, 9⟩, ⟨10, 14⟩] := by decide
+example : pushAllowed [⟨0, 4⟩, ⟨5, 9⟩] ⟨9, 14⟩ = .ok [⟨0, 4⟩, ⟨5, 14⟩] := by decide
+example : pushAllowed [⟨0, 4⟩, ⟨5, 9⟩] ⟨8, 14⟩ = .error .assertFail := by decide
+
+/-- non-vacuity of mergeWhitespaceSep_maintains -/
+example : ∃ m', mergeWhitespaceSep (fun c => c == ' ' || c == '\n')
+    ['w','o','r','d',' ','w','o','r','d','\n','w','o','r','d'] 4 [⟨0, 4⟩, ⟨5, 9⟩, ⟨10, 14⟩] = .ok m' ∧
+    MaskOK 14 m' :=
+  mergeWhitespaceSep_maintains _ ['w','o','r','d',' ','w','o','r','d','\n','w','o','r','d']
+    [⟨0, 4⟩, ⟨5, 9⟩, ⟨10, 14⟩]
+    ⟨by intro s hs; simp at hs; rcases hs with rfl | rfl | rfl <;> simp, by simp⟩
+
+/-- the loop `for span in comments_spans { mask.push_allowed(span) }` on in-bounds, increasing,
+disjoint spans never trips the assertion and keeps the invariant -/
+theorem pushAll_maintains (n : Nat) : ∀ (as m : List Span), MaskOK n m →
+    (∀ a ∈ as, a.start ≤ a.stop ∧ a.stop ≤ n) → as.Pairwise (fun x y => x.stop ≤ y.start) →
+    (∀ l, m.getLast? = some l → ∀ a ∈ as, l.stop ≤ a.start) →
+    ∃ m', pushAll m as = .ok m' ∧ MaskOK n m' := by
+  intro as
+  induction as with
+  | nil => intro m hm _ _ _; exact ⟨m, rfl, hm⟩
+  | cons a as ih =>
+    intro m hm hb hp hl
+    have ha := hb a (by simp)
+    obtain ⟨m1, h1, h2, h3⟩ := pushAllowed_ok hm ha.1 ha.2 (fun l h => hl l h a (by simp))
+    obtain ⟨m', h4, h5⟩ := ih m1 h2 (fun b hb' => hb b (by simp [hb']))
+      (List.pairwise_cons.mp hp).2
+      (by
+        intro l hlast b hb'
+        rw [hlast] at h3
+        have : l.stop = a.stop := by simpa using h3
+        rw [this]
+        exact (List.pairwise_cons.mp hp).1 b hb')
+    exact ⟨m', by simp only [pushAll, h1, bind, Except.bind]; exact h4, h5⟩
+
+/-- `TreeSitterMasker::create_mask` after the tree walk, composed: under the hypotheses of
+`byteToChar_exact` (node ranges on character boundaries, disjoint after the `retain` step) the
+three steps byte→char, `push_allowed`, `merge_whitespace_sep` all succeed and the mask satisfies
+the invariant that `maskParse_*` assume. `src` is the text as characters (one per byte group). -/
+theorem treeSitterMask_ok (isWs : Char → Bool) (gs : List (List Nat)) (hwf : ∀ g ∈ gs, WFGroup g)
+    (src : List Char) (hlen : src.length = gs.length) (spans : List Span) (cs : List (Nat × Nat))
+    (hret : retainStep (sortByStart spans) = cs.map (toByteSpan gs))
+    (hc : CharChain gs.length 0 cs) :
+    ∃ m, treeSitterMask isWs gs.flatten src spans = .ok m ∧ MaskOK src.length m := by
+  obtain ⟨h1, h2, h3⟩ := byteToChar_exact gs hwf spans cs hret hc
+  obtain ⟨m1, h4, h5⟩ := pushAll_maintains src.length (cs.map toCharSpan) [] (MaskOK.nil _)
+    (by rw [hlen]; exact h2) h3 (by simp)
+  obtain ⟨m, h6, h7⟩ := mergeWhitespaceSep_maintains isWs src m1 h5
+  exact ⟨m, by simp only [treeSitterMask, h1, h4, bind, Except.bind]; exact h6, h7⟩
+
+/-- non-vacuity of treeSitterMask_ok: "aé😀b", comment ranges `é` and `b` (bytes 1..3, 7..8) -/
+example : ∃ m, treeSitterMask (fun c => c == ' ') sampleGroups.flatten ['a', 'é', '😀', 'b'] [⟨7, 8⟩, ⟨1, 3⟩] = .ok m ∧
+    MaskOK 4 m :=
+  treeSitterMask_ok _ sampleGroups sampleGroups_wf ['a', 'é', '😀', 'b'] (by decide) [⟨7, 8⟩, ⟨1, 3⟩]
+    [(1, 2), (3, 4)] (by decide) (by simp [CharChain, sampleGroups])
+example : treeSitterMask (fun c => c == ' ') sampleGroups.flatten ['a', 'é', '😀', 'b'] [⟨7, 8⟩, ⟨1, 3⟩] =
+    .ok [⟨1, 2⟩, ⟨3, 4⟩] := by decide
 
 /-- Given the mask invariant and an inner parser that keeps its tokens inside the chunk it is given
 and in order, `Mask::parse` does not panic, its tokens are inside the source and ordered — within a
@@ -141,6 +221,156 @@ example : InnerOK spy := by
 example : maskParse ['é', '😀', '\n', 'x'] [⟨0, 2⟩, ⟨3, 4⟩] spy =
     .ok [⟨⟨0, 2⟩, .word⟩, ⟨⟨2, 3⟩, .paragraphBreak⟩, ⟨⟨3, 4⟩, .word⟩] := by decide
 
+/-- a multi-token inner parser: `word space word` on chunks of three or more characters -/
+def spy3 : List Char → List Tok := fun c =>
+  if c.length < 3 then (if c.isEmpty then [] else [⟨⟨0, c.length⟩, .word⟩])
+  else [⟨⟨0, 1⟩, .word⟩, ⟨⟨1, 2⟩, .space 1⟩, ⟨⟨2, c.length⟩, .word⟩]
+
+theorem spy3_ok : InnerOK spy3 := by
+  intro c
+  unfold spy3
+  split
+  · split <;> simp
+  · refine ⟨?_, by simp⟩
+    intro t ht; simp at ht; rcases ht with rfl | rfl | rfl <;> simp <;> omega
+
+theorem exMask_ok : MaskOK ['é', ' ', '😀', 'a', '\n', '/', '/', 'x', ' ', 'y', 'z'].length [⟨0, 4⟩, ⟨7, 11⟩] :=
+  ⟨by intro s hs; simp at hs; rcases hs with rfl | rfl <;> simp, by simp⟩
+
+/-- non-vacuity of maskParse_inbounds_sorted / maskParse_faithful: two allowed spans, three inner
+tokens each, a multi-byte character in the first; the concrete output -/
+example : ∃ toks, maskParse ['é', ' ', '😀', 'a', '\n', '/', '/', 'x', ' ', 'y', 'z'] [⟨0, 4⟩, ⟨7, 11⟩] spy3 = .ok toks ∧
+    Faithful spy3 ['é', ' ', '😀', 'a', '\n', '/', '/', 'x', ' ', 'y', 'z'] toks :=
+  maskParse_faithful _ _ spy3 exMask_ok spy3_ok
+example : ∃ toks, maskParse ['é', ' ', '😀', 'a', '\n', '/', '/', 'x', ' ', 'y', 'z'] [⟨0, 4⟩, ⟨7, 11⟩] spy3 = .ok toks ∧
+    (∀ t ∈ toks, t.span.start ≤ t.span.stop ∧ t.span.stop ≤ 11) ∧
+    toks.Pairwise (fun a b => a.span.stop ≤ b.span.start) :=
+  maskParse_inbounds_sorted _ _ spy3 exMask_ok spy3_ok
+example : maskParse ['é', ' ', '😀', 'a', '\n', '/', '/', 'x', ' ', 'y', 'z'] [⟨0, 4⟩, ⟨7, 11⟩] spy3 =
+    .ok [⟨⟨0, 1⟩, .word⟩, ⟨⟨1, 2⟩, .space 1⟩, ⟨⟨2, 4⟩, .word⟩, ⟨⟨4, 7⟩, .paragraphBreak⟩,
+      ⟨⟨7, 8⟩, .word⟩, ⟨⟨8, 9⟩, .space 1⟩, ⟨⟨9, 11⟩, .word⟩] := by decide
+
+/-- non-vacuity of faithful_text: the chunk `é😀b` sits at offset 1 of `aé😀bc` -/
+example : slice ['a', 'é', '😀', 'b', 'c'] ((⟨⟨1, 3⟩, .word⟩ : Tok).shift 1).span =
+    slice ['é', '😀', 'b'] (⟨1, 3⟩ : Span) :=
+  faithful_text ['a', 'é', '😀', 'b', 'c'] ['é', '😀', 'b'] 1 ⟨⟨1, 3⟩, .word⟩ (by decide) (by decide)
+example : slice ['a', 'é', '😀', 'b', 'c'] ((⟨⟨1, 3⟩, .word⟩ : Tok).shift 1).span = ['😀', 'b'] := by decide
+
+/-- the mask invariant survives any filter (`CommentMasker::create_mask` filters the allowed spans) -/
+theorem MaskOK_filter {n : Nat} {m : List Span} (p : Span → Bool) (h : MaskOK n m) :
+    MaskOK n (m.filter p) :=
+  ⟨fun s hs => h.1 s (List.mem_filter.mp hs).1, h.2.sublist List.filter_sublist⟩
+
+/-- the loop of `Mask::parse`, exactly (any `last_allowed`) -/
+theorem maskLoop_exact (src : List Char) (inner : List Char → List Tok) :
+    ∀ (mask : List Span) (last : Option Span) (lo : Nat), MaskOK src.length mask →
+      (∀ s ∈ mask, lo ≤ s.start) → (∀ l, last = some l → l.stop = lo) →
+      ∃ brks : List (List Tok), brks.length = mask.length ∧
+        (∀ b ∈ brks, b.length ≤ 1 ∧ ∀ t ∈ b, t.kind = .paragraphBreak) ∧
+        maskLoop src inner last mask =
+          .ok ((brks.zip mask).flatMap
+            fun p => p.1 ++ (inner (slice src p.2)).map (·.shift p.2.start)) := by
+  intro mask
+  induction mask with
+  | nil => intro _ _ _ _ _; exact ⟨[], rfl, by simp, rfl⟩
+  | cons s rest ih =>
+    intro last lo hm hlo hl
+    have hs := hm.1 s (by simp)
+    have hcont := getContent_eq s src hs.1 hs.2
+    obtain ⟨brk, hbrk, hbrk1, hbrkP⟩ :=
+      gapBreak_ok src last s lo hl (hlo s (by simp)) (by omega)
+    have hlo' : ∀ x ∈ rest, s.stop ≤ x.start := (List.pairwise_cons.mp hm.2).1
+    obtain ⟨brks, hlen, hk, hr⟩ := ih (some s) s.stop hm.tail hlo' (by intro l h; cases h; rfl)
+    refine ⟨brk :: brks, by simp [hlen], ?_, ?_⟩
+    · intro b hb
+      rcases List.mem_cons.mp hb with rfl | hb
+      · exact ⟨hbrk1, fun t ht => (hbrkP t ht).1⟩
+      · exact hk b hb
+    · simp only [maskLoop, hcont, hbrk, hr, bind, Except.bind, pure, Except.pure,
+        List.zip_cons_cons, List.flatMap_cons, List.append_assoc]
+
+/-- **Exactly the allowed spans.** Under the mask invariant alone (nothing is assumed of the inner
+parser) the output of `Mask::parse` is, span by span in mask order, an optional `ParagraphBreak`
+followed by the inner parser's tokens on `src[span]` shifted by `span.start` — each allowed span is
+handed to the inner parser exactly once, and nothing else is. (`Faithful` alone would also hold of a
+parser that looked outside the mask, or returned nothing.) -/
+theorem maskParse_exact (src : List Char) (mask : List Span) (inner : List Char → List Tok)
+    (hm : MaskOK src.length mask) :
+    ∃ brks : List (List Tok), brks.length = mask.length ∧
+      (∀ b ∈ brks, b.length ≤ 1 ∧ ∀ t ∈ b, t.kind = .paragraphBreak) ∧
+      maskParse src mask inner =
+        .ok ((brks.zip mask).flatMap
+          fun p => p.1 ++ (inner (slice src p.2)).map (·.shift p.2.start)) :=
+  maskLoop_exact src inner mask none 0 hm (by simp) (by simp)
+
+/-- membership reading: a token is a paragraph break or comes from an ALLOWED span (soundness), and
+every inner token of every allowed span is in the output (completeness) -/
+theorem maskParse_only_allowed (src : List Char) (mask : List Span) (inner : List Char → List Tok)
+    (hm : MaskOK src.length mask) :
+    ∃ toks, maskParse src mask inner = .ok toks ∧
+      (∀ tok ∈ toks, tok.kind = .paragraphBreak ∨
+        ∃ s ∈ mask, ∃ t ∈ inner (slice src s), tok = t.shift s.start) ∧
+      (∀ s ∈ mask, ∀ t ∈ inner (slice src s), t.shift s.start ∈ toks) := by
+  obtain ⟨brks, hlen, hk, h⟩ := maskParse_exact src mask inner hm
+  refine ⟨_, h, ?_, ?_⟩
+  · intro tok ht
+    obtain ⟨p, hp, ht⟩ := List.mem_flatMap.mp ht
+    rcases List.mem_append.mp ht with ht | ht
+    · exact Or.inl ((hk p.1 (List.of_mem_zip hp).1).2 tok ht)
+    · obtain ⟨t, hti, rfl⟩ := List.mem_map.mp ht
+      exact Or.inr ⟨p.2, (List.of_mem_zip hp).2, t, hti, rfl⟩
+  · intro s hs t ht
+    obtain ⟨i, hi, rfl⟩ := List.mem_iff_getElem.mp hs
+    have hi' : i < brks.length := by omega
+    apply List.mem_flatMap.mpr
+    refine ⟨(brks[i], mask[i]), ?_, ?_⟩
+    · have : (brks.zip mask)[i]'(by simp; omega) = (brks[i], mask[i]) := by simp
+      rw [← this]; exact List.getElem_mem _
+    · exact List.mem_append_right _ (List.mem_map_of_mem ht)
+
+/-- `ignoreMarker_drops` (DESIGN §6 C04). `CommentMasker::create_mask` keeps the allowed spans whose
+text does not satisfy `ignore_condition` (`.filter(|(_, text)| !ignore(text))`, written here inline as
+`List.filter`: the filter itself is NOT part of `Model/Mask.lean`, hence not replayed by K; the
+harness oracle covers it with the marker table). For ANY ignore condition `ign`: no token of
+`Mask::parse` over the filtered mask comes from a span whose text carries a marker. -/
+theorem ignoreMarker_drops (src : List Char) (mask : List Span) (inner : List Char → List Tok)
+    (ign : List Char → Bool) (hm : MaskOK src.length mask) :
+    ∃ toks, maskParse src (mask.filter fun s => !ign (slice src s)) inner = .ok toks ∧
+      ∀ tok ∈ toks, tok.kind = .paragraphBreak ∨
+        ∃ s ∈ mask, ign (slice src s) = false ∧ ∃ t ∈ inner (slice src s), tok = t.shift s.start := by
+  obtain ⟨toks, h, h1, _⟩ := maskParse_only_allowed src _ inner (MaskOK_filter _ hm)
+  refine ⟨toks, h, ?_⟩
+  intro tok ht
+  rcases h1 tok ht with h | ⟨s, hs, t, hti, rfl⟩
+  · exact Or.inl h
+  · have := List.mem_filter.mp hs
+    exact Or.inr ⟨s, this.1, by simpa using this.2, t, hti, rfl⟩
+
+/-- the marker test of the examples: the text contains `ign` -/
+def hasMarker (c : List Char) : Bool :=
+  (List.range c.length).any (fun i => ['i', 'g', 'n'].isPrefixOf (c.drop i))
+
+/-- non-vacuity of maskParse_exact / ignoreMarker_drops: of the two comments `ab ign` and `x y` only
+the second reaches the inner parser -/
+example : MaskOK ['a', 'b', ' ', 'i', 'g', 'n', '\n', 'x', ' ', 'y'].length [⟨0, 6⟩, ⟨7, 10⟩] :=
+  ⟨by intro s hs; simp at hs; rcases hs with rfl | rfl <;> simp, by simp⟩
+example : maskParse ['a', 'b', ' ', 'i', 'g', 'n', '\n', 'x', ' ', 'y']
+    ([⟨0, 6⟩, ⟨7, 10⟩].filter fun s => !hasMarker (slice ['a', 'b', ' ', 'i', 'g', 'n', '\n', 'x', ' ', 'y'] s)) spy3 =
+    .ok [⟨⟨7, 8⟩, .word⟩, ⟨⟨8, 9⟩, .space 1⟩, ⟨⟨9, 10⟩, .word⟩] := by decide
+/-- … the theorems applied to concrete data (hypothesis `MaskOK` met by a two-span mask) -/
+example : ∃ toks, maskParse ['é', ' ', '😀', 'a', '\n', '/', '/', 'x', ' ', 'y', 'z'] [⟨0, 4⟩, ⟨7, 11⟩] spy3 = .ok toks ∧
+    (∀ tok ∈ toks, tok.kind = .paragraphBreak ∨ ∃ s ∈ [(⟨0, 4⟩ : Span), ⟨7, 11⟩],
+      ∃ t ∈ spy3 (slice ['é', ' ', '😀', 'a', '\n', '/', '/', 'x', ' ', 'y', 'z'] s), tok = t.shift s.start) ∧
+    (∀ s ∈ [(⟨0, 4⟩ : Span), ⟨7, 11⟩],
+      ∀ t ∈ spy3 (slice ['é', ' ', '😀', 'a', '\n', '/', '/', 'x', ' ', 'y', 'z'] s), t.shift s.start ∈ toks) :=
+  maskParse_only_allowed _ _ spy3 exMask_ok
+example : ∃ toks, maskParse ['é', ' ', '😀', 'a', '\n', '/', '/', 'x', ' ', 'y', 'z']
+      ([⟨0, 4⟩, ⟨7, 11⟩].filter fun s => !hasMarker (slice ['é', ' ', '😀', 'a', '\n', '/', '/', 'x', ' ', 'y', 'z'] s)) spy3 = .ok toks ∧
+    ∀ tok ∈ toks, tok.kind = .paragraphBreak ∨ ∃ s ∈ [(⟨0, 4⟩ : Span), ⟨7, 11⟩],
+      hasMarker (slice ['é', ' ', '😀', 'a', '\n', '/', '/', 'x', ' ', 'y', 'z'] s) = false ∧
+      ∃ t ∈ spy3 (slice ['é', ' ', '😀', 'a', '\n', '/', '/', 'x', ' ', 'y', 'z'] s), tok = t.shift s.start :=
+  ignoreMarker_drops _ _ spy3 hasMarker exMask_ok
+
 /-! ## (c) comment leaders -/
 
 /-- `without_initiators` never panics in `Span::new` and stays inside the line -/
@@ -166,6 +396,14 @@ theorem unitParse_faithful (isWs : Char → Bool) (src : List Char) (inner : Lis
 example : unitParse (fun c => c == ' ') ['/', '/', ' ', 'é', '\n', ' ', ' ', '*', ' ', '😀', ' ', 'x'] spy =
     .ok [⟨⟨3, 4⟩, .word⟩, ⟨⟨4, 5⟩, .newline 1⟩, ⟨⟨9, 12⟩, .word⟩] := by decide
 
+/-- a fenced block inside a comment: the line between the fences yields no tokens; the CLOSING fence
+line is not "in the fence" any more and is handed to the inner parser like any other line (as in
+`Unit::parse`: the flag is flipped before it is tested) -/
+example : unitParse (fun c => c == ' ' || c == '\n') ['/', '/', ' ', 'a', '\n', '/', '/', ' ', '`', '`', '`', '\n', '/', '/', ' ', 'b', '\n',
+    '/', '/', ' ', '`', '`', '`', '\n', '/', '/', ' ', 'c'] spy =
+    .ok [⟨⟨3, 4⟩, .word⟩, ⟨⟨4, 5⟩, .newline 1⟩, ⟨⟨20, 23⟩, .word⟩, ⟨⟨23, 24⟩, .newline 1⟩,
+      ⟨⟨27, 28⟩, .word⟩] := by decide
+
 /-! ## JSDoc inline tags -/
 
 /-- `parse_inline_tag` terminates (never out of fuel with `fuel = len + 1`) and a reported tag ends
@@ -184,6 +422,50 @@ theorem markInlineTags_terminates (toks : List Tok) :
 example : parseInlineTag 4 [.punct .OpenCurly, .punct .At, .word] = .ok none := by decide
 example : parseInlineTag 6 [.punct .OpenCurly, .punct .At, .word, .space 1, .word, .punct .CloseCurly, .word] =
     .ok (some 6) := by decide
+
+/-- an inner parser for the examples: one token per character (`{ } @ *`, spaces, line breaks; any
+other character is a one-letter `Word`) -/
+def charTok : List Char → List Tok := fun c =>
+  c.zipIdx.map fun p => ⟨⟨p.2, p.2 + 1⟩,
+    if p.1 = '{' then .punct .OpenCurly else if p.1 = '}' then .punct .CloseCurly
+    else if p.1 = '@' then .punct .At else if p.1 = '*' then .punct .Star
+    else if p.1 = ' ' then .space 1 else if p.1 = '\n' then .newline 1 else .word⟩
+
+/-- `JsDoc::parse` never panics or runs out of fuel (leader stripping, `mark_inline_tags` per line) -/
+theorem jsdocLine_total (isWs : Char → Bool) (inner : List Char → List Tok) (line : List Char) :
+    ∃ r, jsdocLine isWs inner line = .ok r := by
+  obtain ⟨a, ha, h1, h2⟩ := withoutInitiators_ok isWs line
+  simp only [jsdocLine, ha, bind, Except.bind]
+  split
+  · exact ⟨_, rfl⟩
+  · rw [getContent_eq a line h1 h2]
+    obtain ⟨t1, ht1, _⟩ := markInlineTags_ok ((inner (slice line a)).length + 1)
+      (inner (slice line a)) 0 (Nat.zero_le _) (by omega)
+    simp only [ht1]
+    exact ⟨_, rfl⟩
+
+/-- … for the whole comment -/
+theorem jsdocParse_total (isWs : Char → Bool) (src : List Char) (inner : List Char → List Tok) :
+    ∃ r, jsdocParse isWs src inner = .ok r := by
+  unfold jsdocParse
+  generalize src.length = total
+  generalize 0 = trav
+  induction splitNl src generalizing trav with
+  | nil => exact ⟨[], rfl⟩
+  | cons line rest ih =>
+    obtain ⟨nt, hnt⟩ := jsdocLine_total isWs inner line
+    obtain ⟨r, hr⟩ := ih (trav + line.length + 1)
+    simp only [jsdocLoop, hnt, hr, bind, Except.bind, pure, Except.pure]
+    exact ⟨_, rfl⟩
+
+/-- `/** a {@l é} b` / ` * @p q`: the inline tag and the block tag are Unlintable, prose keeps its
+offsets on both lines -/
+example : jsdocParse (fun c => c == ' ' || c == '\n')
+    ['/', '*', '*', ' ', 'a', ' ', '{', '@', 'l', ' ', 'é', '}', ' ', 'b', '\n', ' ', '*', ' ', '@', 'p', ' ', 'q'] charTok =
+    .ok [⟨⟨4, 5⟩, .word⟩, ⟨⟨5, 6⟩, .space 1⟩, ⟨⟨6, 7⟩, .unlintable⟩, ⟨⟨7, 8⟩, .unlintable⟩,
+      ⟨⟨8, 9⟩, .unlintable⟩, ⟨⟨9, 10⟩, .unlintable⟩, ⟨⟨10, 11⟩, .unlintable⟩, ⟨⟨11, 12⟩, .unlintable⟩,
+      ⟨⟨12, 13⟩, .space 1⟩, ⟨⟨13, 14⟩, .word⟩, ⟨⟨14, 15⟩, .newline 1⟩, ⟨⟨18, 19⟩, .unlintable⟩,
+      ⟨⟨19, 20⟩, .unlintable⟩, ⟨⟨20, 21⟩, .unlintable⟩, ⟨⟨21, 22⟩, .unlintable⟩] := by decide
 
 /-! ## JavaDoc block tags, Go directives -/
 
@@ -258,6 +540,107 @@ example : goParse (fun c => c == ' ' || c == '\n')
 example : goParse (fun c => c == ' ' || c == '\n') ['/', '/', ' ', 'a', 'b'] spy =
     .ok [⟨⟨3, 5⟩, .word⟩] := by decide
 
+/-- `JavaDoc::parse` never panics: delimiters, inner parse, leader removal, inline tags, block tags;
+the result has as many tokens as were left after the leaders were dropped -/
+theorem javadocParse_total (isWs : Char → Bool) (src : List Char) (inner : List Char → List Tok) :
+    ∃ a r, withoutInitiators isWs src = .ok a ∧ javadocParse isWs src inner = .ok r ∧
+      r.length = (jdStrip false (inner (slice src a))).length := by
+  obtain ⟨a, ha, h1, h2⟩ := withoutInitiators_ok isWs src
+  obtain ⟨t2, ht2, hl2⟩ := markInlineTags_ok
+    (((jdStrip false (inner (slice src a))).map (·.shift a.start)).length + 1)
+    ((jdStrip false (inner (slice src a))).map (·.shift a.start)) 0 (Nat.zero_le _) (by omega)
+  refine ⟨a, jdScan t2, ha, ?_, ?_⟩
+  · simp only [javadocParse, ha, bind, Except.bind, getContent_eq a src h1 h2, ht2, javadocMark_eq]
+  · rw [jdScan_length, hl2, List.length_map]
+
+/-- `/** é` / ` * @s R */`: leaders stripped, the `@tag argument` window Unlintable, offsets in the
+file (`actual.start` added after the inner parse) -/
+example : javadocParse (fun c => c == ' ' || c == '\n')
+    ['/', '*', '*', ' ', 'é', '\n', ' ', '*', ' ', '@', 's', ' ', 'R', ' ', '*', '/'] charTok =
+    .ok [⟨⟨4, 5⟩, .word⟩, ⟨⟨5, 6⟩, .newline 1⟩, ⟨⟨9, 10⟩, .unlintable⟩, ⟨⟨10, 11⟩, .unlintable⟩,
+      ⟨⟨11, 12⟩, .unlintable⟩, ⟨⟨12, 13⟩, .unlintable⟩] := by decide
+
+/-- non-vacuity of javadocMark_last_window -/
+example : ∃ r, javadocMark ([wordT 0 3, ⟨⟨3, 4⟩, .newline 1⟩] ++ [atT 4, wordT 5 11, spaceT 11, wordT 12 23]) = .ok r ∧
+    r.drop 2 = [unl (atT 4), unl (wordT 5 11), unl (spaceT 11), unl (wordT 12 23)] :=
+  javadocMark_last_window [wordT 0 3, ⟨⟨3, 4⟩, .newline 1⟩] _ _ _ _ (by decide)
+
+/-- `Go::parse` never panics and is faithful: every token is the shifted image of an inner token of a
+chunk that is the text of the file at that offset (directive or not) -/
+theorem goParse_faithful (isWs : Char → Bool) (src : List Char) (inner : List Char → List Tok) :
+    ∃ toks, goParse isWs src inner = .ok toks ∧ Faithful inner src toks := by
+  obtain ⟨a, ha, h1, h2⟩ := withoutInitiators_ok isWs src
+  have hc := getContent_eq a src h1 h2
+  have hlen := slice_length a src h2
+  simp only [goParse, ha, hc, bind, Except.bind]
+  split
+  · cases hf : src.findIdx? (· == '\n') with
+    | none => exact ⟨[], rfl, Faithful.nil⟩
+    | some term =>
+      simp only [tryGetContent]
+      by_cases hcond : (a.start + term > a.stop ∨ a.start + term ≥ (slice src a).length ∨
+          a.stop > (slice src a).length)
+      · rw [if_pos hcond]
+        by_cases heq : (a.stop == a.start + term) = true
+        · rw [if_pos heq]
+          refine ⟨_, rfl, ?_⟩
+          intro tok ht
+          obtain ⟨t, hti, rfl⟩ := List.mem_map.mp ht
+          have : a.stop = a.start + term := by simpa using heq
+          exact Or.inr ⟨a.start + term, [], t, by simp, by simp; omega, hti, rfl⟩
+        · rw [if_neg heq]; exact ⟨[], rfl, Faithful.nil⟩
+      · rw [if_neg hcond]
+        rw [hlen] at hcond
+        have h0 : a.start = 0 := by omega
+        refine ⟨_, rfl, ?_⟩
+        intro tok ht
+        obtain ⟨t, hti, rfl⟩ := List.mem_map.mp ht
+        refine Or.inr ⟨a.start + term, _, t, ?_, ?_, hti, rfl⟩
+        · have hsrc : src = [] ++ slice src a ++ src.drop a.stop := by
+            simp [slice, h0]
+          have := chunk_located [] (slice src a) (src.drop a.stop) ⟨a.start + term, a.stop⟩
+            (by simp; omega) (by simp [hlen]; omega)
+          rw [← hsrc] at this
+          simpa [h0] using this
+        · rw [slice_length _ _ (by simp [hlen]; omega)]
+          simp; omega
+  · refine ⟨_, rfl, ?_⟩
+    intro tok ht
+    obtain ⟨t, hti, rfl⟩ := List.mem_map.mp ht
+    refine Or.inr ⟨a.start, slice src a, t, ?_, by omega, hti, rfl⟩
+    rw [hlen]; rfl
+
+/-- a comment block that starts with a `go:` directive (after a non-empty leader such as `//`) yields
+no tokens — or, when the directive line is the whole block, whatever the inner parser makes of the
+EMPTY text (`try_get_content` answers `Some(&[])` for `start == end`) -/
+theorem goParse_directive (isWs : Char → Bool) (src : List Char) (inner : List Char → List Tok)
+    (a : Span) (ha : withoutInitiators isWs src = .ok a) (h0 : 0 < a.start)
+    (hgo : ((slice src a).take 3 == ['g', 'o', ':']) = true) :
+    goParse isWs src inner = .ok [] ∨
+      ∃ off, goParse isWs src inner = .ok ((inner []).map (·.shift off)) := by
+  obtain ⟨a', ha', h1, h2⟩ := withoutInitiators_ok isWs src
+  rw [ha] at ha'; cases ha'
+  have hc := getContent_eq a src h1 h2
+  have hlen := slice_length a src h2
+  simp only [goParse, ha, hc, bind, Except.bind]
+  rw [if_pos hgo]
+  cases hf : src.findIdx? (· == '\n') with
+  | none => exact Or.inl rfl
+  | some term =>
+    simp only [tryGetContent]
+    rw [if_pos (by rw [hlen]; omega)]
+    by_cases heq : (a.stop == a.start + term) = true
+    · rw [if_pos heq]; exact Or.inr ⟨a.start + term, rfl⟩
+    · rw [if_neg heq]; exact Or.inl rfl
+
+example : withoutInitiators (fun c => c == ' ' || c == '\n')
+    ['/', '/', 'g', 'o', ':', 'x', '\n', '/', '/', ' ', 'a', 'b'] = .ok ⟨2, 12⟩ := by decide
+example : goParse (fun c => c == ' ' || c == '\n')
+    ['/', '/', 'g', 'o', ':', 'x', '\n', '/', '/', ' ', 'a', 'b'] spy = .ok [] ∨
+    ∃ off, goParse (fun c => c == ' ' || c == '\n')
+      ['/', '/', 'g', 'o', ':', 'x', '\n', '/', '/', ' ', 'a', 'b'] spy = .ok ((spy []).map (·.shift off)) :=
+  goParse_directive _ _ spy ⟨2, 12⟩ (by decide) (by decide) (by decide)
+
 /-! ## (d) Literate Haskell -/
 
 /-- the masker never panics (`Span::new`, the `push_allowed` assertion, the slices of
@@ -298,6 +681,11 @@ example : lhsMask ws true false ['>'] = .ok [⟨1, 1⟩] := by decide
 /-- a blank line inside `\begin{code}` ends the code environment (recorded finding): `x` is text -/
 example : lhsMask ws true false (beginCode ++ ['\n', 'a', '\n', '\n', 'x', '\n'] ++ endCode) =
     .ok [⟨16, 28⟩] := by decide
+
+/-- non-vacuity of lhsMask_classifies (second part): a bird line after a blank line, code mask -/
+example : (lhsStep ws false true ⟨3, false, true⟩ ['>', ' ', '😀']).2 = some (5, 6) := by decide
+/-- … and the clamp: a lone `>` -/
+example : (lhsStep ws false true ⟨3, false, true⟩ ['>']).2 = some (4, 4) := by decide
 
 /-! ## (e) git commit -/
 
@@ -401,5 +789,15 @@ example : Cursor.pushAll sampleGroups.flatten ⟨0, 0⟩ [1, 3, 3, 7, 8] =
 /-- pushing into the middle of `é` is `doc.get(..).unwrap()` on `None` -/
 example : Cursor.pushTo sampleGroups.flatten ⟨0, 0⟩ 2 = .error .unwrapNone := by decide
 example : Cursor.pushTo sampleGroups.flatten ⟨2, 3⟩ 1 = .error .assertFail := by decide
+
+/-- non-vacuity of offsetCursor_exact: from character 1 (byte 1) to character 3 (byte 7) of "aé😀b" -/
+example : Cursor.pushTo sampleGroups.flatten ⟨1, 1⟩ 7 = .ok ⟨3, 7⟩ :=
+  offsetCursor_exact sampleGroups sampleGroups_wf 1 3 (by decide) (by decide)
+
+/-- non-vacuity of markdownOffsets_exact: forward, and an earlier range start -/
+example : mdAdvance sampleGroups.flatten ⟨1, 1⟩ 7 = .ok ⟨3, 7⟩ :=
+  markdownOffsets_exact sampleGroups sampleGroups_wf 1 3 (by decide)
+example : mdAdvance sampleGroups.flatten ⟨3, 7⟩ 1 = .ok ⟨3, 7⟩ :=
+  markdownOffsets_exact sampleGroups sampleGroups_wf 3 1 (by decide)
 
 end Harper.C04
